@@ -30,13 +30,13 @@ def plan(tier):
     def ciph_ll(n): return [LL('src/%s-cipher.c' % n, flags=('-msse2',), ct=True, opt=opt)]
     # ---- single-block API
     for case0, n, blk, rr in ((0, 'skinny128', 16, (40, 48, 56)), (10, 'skinny64', 8, (32, 36, 40))):
-        kls = [blk, blk + 4, 2 * blk, 2 * blk + 1, 3 * blk] if tier == 'quick' else list(range(blk, 3 * blk + 1))
+        kls = [blk, blk + 5, 3 * blk] if tier == 'quick' else list(range(blk, 3 * blk + 1))
         for kl in kls:
             qs.append(cq('%s:set_key:%d' % (n, kl), '%s_set_key with a %d-byte key' % (n, kl), {'CASE': case0 + 1, 'KLEN': kl}, ciph_ll(n)))
         for kl in ([blk, 2 * blk] if tier == 'quick' else list(range(blk, 2 * blk + 1))):
             qs.append(cq('%s:set_tweaked_key:%d' % (n, kl), '%s_set_tweaked_key with a %d-byte key' % (n, kl), {'CASE': case0 + 2, 'KLEN': kl}, ciph_ll(n)))
         for tl in ([1, blk] if tier == 'quick' else list(range(1, blk + 1))):
-            for r in rr[1:]:
+            for r in (rr[1:] if tier == 'thorough' else rr[2:]):
                 qs.append(cq('%s:set_tweak:%d:r%d' % (n, tl, r), '%s_set_tweak(%d bytes) on an arbitrary %d-round tweaked schedule' % (n, tl, r), {'CASE': case0 + 3, 'TLEN': tl, 'ROUNDS': r, 'ROUNDS_OFF': 0}, ciph_ll(n)))
         for r in rr:
             qs.append(cq('%s:encrypt:r%d' % (n, r), '%s_ecb_encrypt on an arbitrary %d-round schedule' % (n, r), {'CASE': case0 + 4, 'ROUNDS': r, 'ROUNDS_OFF': 0}, ciph_ll(n)))
@@ -64,7 +64,7 @@ def plan(tier):
             off = GEN_OFF[c]
         r = 5 if c == 3 else 2
         base = {'CIPHER': c, 'CTRF': pref, 'OFFSET_OFF': off, 'ROUNDS_OFF': ROUNDS_OFF[c], 'ROUNDS': r, 'O': B}
-        pts = [(B, 1), (B, B + 1), (1, blk), (B - 1, 2)] if tier == 'quick' else [(B, 0), (B, 1), (B, blk), (B, B), (B, B + 1), (B, 2 * B + 1), (0, 1), (1, blk), (blk, blk + 1), (B - 1, 2), (B - 1, B + 2)]
+        pts = [(B, B + 1), (1, blk), (B - 1, 2)] if tier == 'quick' else [(B, 0), (B, 1), (B, blk), (B, B), (B, B + 1), (B, 2 * B + 1), (0, 1), (1, blk), (blk, blk + 1), (B - 1, 2), (B - 1, B + 2)]
         for (o, nn) in pts:
             qs.append(cq('ctr:%s:encrypt:o%d:n%d' % (name, o, nn), 'CTR encrypt of %d bytes on the %s back end from offset %d (arbitrary context, %d-round schedule)' % (nn, name, o, r), dict(base, CASE=31, O=o, N=nn), ll))
         for ln in ((0, 3, blk) if tier == 'quick' else range(0, blk + 1)):
@@ -87,7 +87,7 @@ def plan(tier):
     return dict(queries=qs, level='model_checking', pre=[pre_layout, pre_gen_layout],
                 functions=['every public single-block function of the three ciphers', 'every CTR back end: encrypt, set_counter, set_key, set_tweak (generic ones from src/*-ctr.c, vector ones from src/*-ctr-vec*.c)', 'vector batch functions of parallel ECB',
                            'all as clang-14 IR with branch/address hooks emitted by ll2c'],
-                bounds={'public parameters': 'key lengths (quick: primary + two in-between; thorough: every length), tweak and counter lengths, round counts as shipped for single-block functions, 2 rounds (Mantis 5) for CTR / parallel glue, Mantis mode, (offset, size) points of the CTR grid',
+                bounds={'public parameters': 'key lengths (quick: smallest, one in-between, largest; thorough: every length), tweak and counter lengths, round counts as shipped for single-block functions, 2 rounds (Mantis 5) for CTR / parallel glue, Mantis mode, (offset, size) points of the CTR grid',
                         'secrets': 'key, tweak, counter, data and the whole prior context except round count and keystream offset: two independent symbolic assignments', 'compiler': 'clang-14 %s IR (quick -O1, thorough -O3 as shipped); gcc machine code is outside the reach of this technique' % opt,
                         'events': 'conditional branches, switches, loads, stores, memory intrinsics (address and length); select instructions are treated as constant-time'},
                 outside=['gcc code generation', 'dispatchers and init (no secrets)', 'driver loops of parallel ECB (sizes are public; C07)'],
